@@ -390,9 +390,16 @@ def _qual(schema, e):
     node = schema
     nodes = [schema]
     try:
+        name_map = False          # True while `node` is a mapping of names (properties / dependentRequired), not a schema
         for p in list(e.absolute_schema_path)[:-1]:
             node = node[p]
-            if isinstance(node, dict):
+            if name_map:
+                name_map = False
+                if isinstance(node, dict):
+                    nodes.append(node)
+            elif p in ("properties", "dependentRequired", "$defs", "patternProperties"):
+                name_map = True
+            elif isinstance(node, dict):
                 nodes.append(node)
     except Exception:
         return ""
@@ -432,10 +439,56 @@ def judge(case):
     return run_case(case)["fails"]
 
 
+@st.composite
+def constrained_leaf(draw):
+    """a scalar schema that certainly carries a constraint, with values on both sides of it"""
+    kind = draw(st.sampled_from(["min", "max", "mult", "minlen", "maxlen", "pattern", "enum"]))
+    if kind in ("min", "max", "mult"):
+        t = draw(st.sampled_from(["integer", "number"]))
+        b = draw(st.integers(-4, 6))
+        if kind == "min":
+            return {"type": t, draw(st.sampled_from(["minimum", "exclusiveMinimum"])): b}, [b - 1, b, b + 1]
+        if kind == "max":
+            return {"type": t, draw(st.sampled_from(["maximum", "exclusiveMaximum"])): b}, [b - 1, b, b + 1]
+        return {"type": t, "multipleOf": 3}, [3, 4, 6, 7]
+    if kind == "minlen":
+        return {"type": "string", "minLength": 2}, ["a", "ab", "abc", ""]
+    if kind == "maxlen":
+        return {"type": "string", "maxLength": 2}, ["a", "ab", "abc", "abcd"]
+    if kind == "pattern":
+        return {"type": "string", "pattern": "^[a-z]+$"}, ["ab", "a1", "", "AB"]
+    return {"type": "string", "enum": ["a", "b"]}, ["a", "b", "c", ""]
+
+
+@st.composite
+def near_miss_cases(draw):
+    """constrained schemas in every POSITION a subschema can take (property, branch of a combinator under a property, array item,
+    prefix item, additionalProperties, nested object), with type-correct values on both sides of each bound"""
+    leaves = [draw(constrained_leaf()) for _ in range(draw(st.integers(1, 3)))]
+    pos = draw(st.sampled_from(["property", "property-logic", "property-logic", "items", "prefix", "additional", "nested", "logic-top", "items-logic"]))
+    comb = draw(st.sampled_from(["anyOf", "anyOf", "oneOf", "allOf"]))
+    sub = leaves[0][0] if len(leaves) == 1 or "logic" not in pos else {comb: [l[0] for l in leaves]}
+    vals = [v for l in leaves for v in l[1]] if "logic" in pos else list(leaves[0][1])
+    v = draw(st.sampled_from(vals))
+    name = draw(st.sampled_from(["x", "a-b", "items", "class"]))
+    if pos.startswith("property"):
+        return {"schema": {"type": "object", "properties": {name: sub}}, "instances": [{name: v}, {name: draw(st.sampled_from(vals))}]}
+    if pos in ("items", "items-logic"):
+        return {"schema": {"type": "array", "items": sub}, "instances": [[v], [draw(st.sampled_from(vals)), v]]}
+    if pos == "prefix":
+        return {"schema": {"type": "array", "prefixItems": [{"type": "boolean"}, sub]}, "instances": [[True, v]]}
+    if pos == "additional":
+        return {"schema": {"type": "object", "properties": {"k": {"type": "integer"}}, "additionalProperties": sub}, "instances": [{"k": 1, "zz": v}]}
+    if pos == "nested":
+        return {"schema": {"type": "object", "properties": {"o": {"type": "object", "properties": {name: sub}}}}, "instances": [{"o": {name: v}}]}
+    return {"schema": sub if isinstance(sub, dict) and comb in sub else {comb: [sub]}, "instances": [v, draw(st.sampled_from(vals))]}
+
+
 def case_strategy(thorough):
     sch = schemas(3 if thorough else 2)
-    return sch.flatmap(lambda s: st.fixed_dictionaries({
+    main = sch.flatmap(lambda s: st.fixed_dictionaries({
         "schema": st.just(s), "instances": st.lists(instance_for(s).flatmap(mutate), min_size=2, max_size=5)}))
+    return st.one_of(main, main, main, main, near_miss_cases())
 
 
 def campaign(ctx):
